@@ -46,9 +46,29 @@ func ReqHostSetFromFirstPathSegment(req *bfe_basic.Request) {
 		return
 	}
 
+	// URL.Path is percent-decoded, so the first segment may hold any byte
+	// ("/a%0d%0aX:%201/x"). Host is written verbatim into the header of the
+	// request forwarded to the backend: a segment with a control character
+	// (CR, LF, NUL ...), SP or DEL can not be a host, treat it as a path
+	// that does not match the pattern
+	if !validHostSegment(segs[1]) {
+		return
+	}
+
 	// set host and trim path prefix
 	req.HttpRequest.Host = segs[1]
 	req.HttpRequest.URL.Path = "/" + segs[2]
+}
+
+// validHostSegment reports whether a (decoded) path segment may be used as
+// value of the Host header field: no control characters, SP or DEL.
+func validHostSegment(seg string) bool {
+	for i := 0; i < len(seg); i++ {
+		if b := seg[i]; b <= ' ' || b == 0x7f {
+			return false
+		}
+	}
+	return true
 }
 
 // ReqHostSuffixReplace replaces suffix of hostname.
